@@ -135,6 +135,10 @@ class Verifier(Engine):
                 return self.call_contract(st, fv.qual, [fv.recv] + args, kwargs)
             if k == 'closure':
                 return self.call_closure(st, fv, args, kwargs)
+            if k == 're_match':
+                return self.re_match(st, fv.pat, args)
+            if k == 're_group':
+                return self.re_group(st, fv.m, args)
             if k == 'constdict_get':
                 # <constant dict>.get(key, default) with a symbolic key: one of the values or the default -- which one is
                 # left open (sound over-approximation); only class-valued dicts are supported
